@@ -202,4 +202,135 @@ def check(ctx, args):
         "exhaustive": False,
     })
     ctx.samples = [l[:240] for l in case_lines[4:7]] + [[l[:240] for l in case_lines if l.startswith(k + " ")][1] for k in "qmjic"]
+    ctx.coverage["end_to_end"] = e2e(ctx)
     return ctx.finish("proof")
+
+
+E2E_STAGE = '''#!/bin/bash
+# $1 = phase, $2 = metadata directory
+md="$2"
+python3 - "$md" <<'PY'
+import json, sys
+md = sys.argv[1]
+ji = json.load(open(md + "/_jobinfo"))
+open(md + "/_outs", "w").write(json.dumps({"mem": ji.get("memGB"), "threads": ji.get("threads")}))
+PY
+'''
+
+E2E_MRO = '''stage SMALL(
+    in  int   x,
+    out float mem,
+    out float threads,
+    src comp  "@DIR@/stage.sh",
+) using (
+    mem_gb = 0.25,
+)
+
+stage EXACT(
+    in  int   x,
+    out float mem,
+    out float threads,
+    src comp  "@DIR@/stage.sh",
+) using (
+    mem_gb = 1,
+)
+
+stage OVER(
+    in  int   x,
+    out float mem,
+    out float threads,
+    src comp  "@DIR@/stage.sh",
+) using (
+    mem_gb  = 3,
+    threads = 9,
+)
+
+pipeline P(
+    in  int     x,
+    out float[] mem,
+    out float[] threads,
+)
+{
+    call SMALL(
+        x = self.x,
+    )
+
+    call EXACT(
+        x = self.x,
+    )
+
+    call OVER(
+        x = self.x,
+    )
+
+    return (
+        mem     = [
+            SMALL.mem,
+            EXACT.mem,
+            OVER.mem,
+        ],
+        threads = [
+            SMALL.threads,
+            EXACT.threads,
+            OVER.threads,
+        ],
+    )
+}
+
+call P(
+    x = 1,
+)
+'''
+
+
+def e2e(ctx):
+    """Real mrp, local mode, --localmem=1 --localcores=2: a job asking for a
+    quarter of the limit, one asking for exactly the limit and one asking for
+    more than both limits.  Every job must be granted at most the limits and
+    the pipestance must finish (a request that fits the limit is never left
+    waiting for good)."""
+    import json
+    import subprocess
+    d = os.path.join(ctx.scratch, "e2e")
+    os.makedirs(os.path.join(d, "bin"), exist_ok=True)
+    p = lib.run(["go", "build", "-o", os.path.join(d, "bin") + "/", "./cmd/mrp", "./cmd/mrjob"], cwd=lib.REPO, env=lib.GOENV, timeout=900)
+    if not ctx.oblige("mrp and mrjob build from the repository", p.returncode == 0, p.stdout[-800:]):
+        return {}
+    for n in ("jobmanagers", "adapters"):
+        os.symlink(os.path.join(lib.REPO, n), os.path.join(d, n))
+    w = os.path.join(d, "work")
+    os.makedirs(w)
+    open(os.path.join(w, "stage.sh"), "w").write(E2E_STAGE)
+    os.chmod(os.path.join(w, "stage.sh"), 0o755)
+    open(os.path.join(w, "p.mro"), "w").write(E2E_MRO.replace("@DIR@", w))
+    try:
+        avail = int([l.split()[1] for l in open("/proc/meminfo") if l.startswith("MemAvailable")][0])
+    except Exception:
+        avail = 0
+    if avail < 3 * 1024 * 1024:
+        ctx.oblige("end to end: enough free memory for the --localmem=1 scenario", True, "skipped: MemAvailable %d kB" % avail)
+        return {"skipped": "low memory"}
+    env = dict(os.environ, MROPATH=w)
+    try:
+        q = subprocess.run([os.path.join(d, "bin", "mrp"), "p.mro", "ps", "--localmem=1", "--localcores=2", "--disable-ui"],
+                           cwd=w, env=env, capture_output=True, text=True, timeout=120)
+        rc, out = q.returncode, q.stdout + q.stderr
+    except subprocess.TimeoutExpired as e:
+        rc, out = -2, ((e.stdout or b"").decode(errors="replace") if isinstance(e.stdout, bytes) else (e.stdout or ""))
+    rep = {"program": E2E_MRO.replace("@DIR@", "<dir>"), "options": "--localmem=1 --localcores=2", "exit": rc, "log_tail": out[-1200:]}
+    if rc == -2:
+        ctx.fail("job_within_limits_never_started", "mrp --localmem=1 --localcores=2 with jobs asking for 0.25 GB, 1 GB and 3 GB/9 threads did not finish in 120 s", rep)
+        return {"exit": rc}
+    if rc != 0:
+        ctx.fail("e2e_local_limits_run_failed", "mrp --localmem=1 --localcores=2 exits %d" % rc, rep)
+        return {"exit": rc}
+    try:
+        o = json.load(open(os.path.join(w, "ps", "P", "fork0", "_outs")))
+    except Exception as e:
+        o = {"error": str(e)}
+    rep["granted"] = o
+    mems, ths = o.get("mem") or [], o.get("threads") or []
+    if len(mems) != 3 or any(m is None or m > 1 or m <= 0 for m in mems) or any(t is None or t > 2 or t <= 0 for t in ths):
+        ctx.fail("e2e_grant_outside_limits", "the jobs were told %s GB / %s threads with --localmem=1 --localcores=2" % (mems, ths), rep)
+    ctx.oblige("end to end: mrp --localmem=1 --localcores=2 ran jobs asking for 0.25 GB, exactly 1 GB and 3 GB/9 threads", True)
+    return {"exit": rc, "granted_mem_gb": mems, "granted_threads": ths}
